@@ -45,3 +45,9 @@ Theorem C13_assigned_nonces_well_formed : forall (K : Fld) (seed_nonce : nlabel 
   wf_nonces K T rounds (assign K seed_nonce rng seeded T rounds).
 Proof. exact assign_wf. Qed.
 Print Assumptions C13_assigned_nonces_well_formed.
+
+(** every RNG-sourced nonce goes through the reject-zero loop: it is non-zero *)
+From BP Require Import Model.RejectZero Proofs.RejectZeroP.
+Theorem C13_rng_nonces_nonzero : forall (K : Fld), FldOk K -> forall (draws : list K) n, Forall (fun d => d <> f0 K) (take_nonzero K n draws).
+Proof. exact take_nonzero_nonzero. Qed.
+Print Assumptions C13_rng_nonces_nonzero.
